@@ -1643,6 +1643,47 @@ async fn run_tx_inner(scn: &Value, certs: &Certs, out: &mut TxOut) -> Result<(),
             }
         }
     }
+    // hostile network, send side: while the payloads are going out, genuine handshake datagrams of
+    // the PEER (its ClientHello / ServerHello flight, its CCS + Finished) captured earlier are
+    // delivered again to the sender - late duplicates of association-setup packets. Whatever the
+    // sender answers (a re-sent final flight, an alert, nothing) is on the wire log under the same
+    // write key as the payload records and falls under the same uniqueness oracle below.
+    let replay = scn["replay"].as_str().unwrap_or("none").to_string();
+    let mut replay_task = None;
+    if replay != "none" && !eager {
+        let snap = rig.log_snapshot();
+        let mut jobs: Vec<(Arc<UdpSocket>, SocketAddr, Vec<Vec<u8>>)> = vec![];
+        for &r in &senders {
+            let dgrams: Vec<Vec<u8>> = snap
+                .iter()
+                .filter(|c| c.dir == 1 - r && !c.bytes.is_empty())
+                .filter(|c| match replay.as_str() {
+                    "hello" => c.bytes[0] == 22 && c.bytes.len() > 4 && c.bytes[3] == 0 && c.bytes[4] == 0,
+                    "final" => c.bytes[0] == 20 || (c.bytes[0] == 22 && c.bytes.len() > 4 && (c.bytes[3] != 0 || c.bytes[4] != 0)),
+                    _ => c.bytes[0] == 20 || c.bytes[0] == 22,
+                })
+                .map(|c| c.bytes.clone())
+                .collect();
+            out.obs.count("tx_replayed_peer_handshake_datagrams_per_round", dgrams.len() as u64);
+            jobs.push((rig.wire.socks[r].clone(), rig.ep[r].addr, dgrams));
+        }
+        let rounds = scn["replay_rounds"].as_u64().unwrap_or(3);
+        replay_task = Some(tokio::spawn(async move {
+            let mut sent = 0u64;
+            for _ in 0..rounds {
+                for (sock, to, dgrams) in &jobs {
+                    for d in dgrams {
+                        if sock.send_to(d, *to).await.is_ok() {
+                            sent += 1;
+                        }
+                        tokio::task::yield_now().await;
+                    }
+                }
+                tokio::time::sleep(Duration::from_millis(3)).await;
+            }
+            sent
+        }));
+    }
     let mut send_errs = 0u32;
     for h in handles {
         match tokio::time::timeout(Duration::from_secs(40), h).await {
@@ -1653,6 +1694,24 @@ async fn run_tx_inner(scn: &Value, certs: &Certs, out: &mut TxOut) -> Result<(),
     }
     if send_errs > 0 {
         return Err(format!("{send_errs} send() calls returned Err (payload may be partly on the wire)"));
+    }
+    if let Some(t) = replay_task {
+        match tokio::time::timeout(Duration::from_secs(20), t).await {
+            Ok(Ok(n)) => out.obs.count("tx_replayed_peer_handshake_datagrams_delivered", n),
+            _ => return Err("replay task watchdog".into()),
+        }
+        // let the sender answer the last round before its log is read; one more payload after the
+        // replays so that a number handed out to an answer is also contended by a later record
+        tokio::time::sleep(Duration::from_millis(30)).await;
+        for &r in &senders {
+            let mut p = base.fork(0xFEED_0000 | r as u64).bytes(40);
+            p[0] = 0xFD;
+            submitted[r].push(p.clone());
+            if rig.ep[r].dtls.send(Bytes::from(p)).await.is_err() {
+                return Err("send() after the replays returned Err".into());
+            }
+        }
+        tokio::time::sleep(Duration::from_millis(10)).await;
     }
     for &r in &senders {
         rig.flush(r).await?;
@@ -2379,6 +2438,15 @@ fn gen_scenarios(tier: Tier, seed: u64) -> Vec<Value> {
                 }
             }
         }
+    }
+    // late duplicates of the peer's handshake datagrams reach the sender while it is sending
+    for i in 0..(if thorough { 36 } else { 9 }) {
+        let senders = ["server", "client", "both"][i % 3];
+        let replay = ["all", "final", "hello"][(i / 3) % 3];
+        let n = [1usize, 2, 4][(i / 9) % 3];
+        let plan: Vec<Vec<usize>> = (0..n).map(|_| (0..40).map(|_| 1 + rng.usize_below(200)).collect()).collect();
+        v.push(json!({"kind":"tx","senders":senders,"tasks":n,"eager":false,"close":true,"replay":replay,"replay_rounds":3,
+            "seed": rng.next_u64() >> 16, "payloads":plan}));
     }
     // hammer: many tiny payloads from many tasks - thousands of concurrent sequence allocations
     for i in 0..(if thorough { 60 } else { 6 }) {
